@@ -502,8 +502,12 @@ func (conn *Conn) send(ctx context.Context) {
 				return
 			}
 		case <-ctx.Done():
-			// control channel closed, bail out
+			// control channel closed, trigger Close() to clean things up
+			// properly and bail out. runLoop() does the same, but it may be
+			// stuck in a handler that is blocked on a full conn.out, which
+			// only Close() drains once we are no longer reading from it.
 			conn.wg.Done()
+			conn.close(gen)
 			return
 		}
 	}
